@@ -111,7 +111,7 @@ type vfRun struct {
 	events []map[string]interface{}
 	calls  int
 	fuse   int32
-	noise  []string // observations that only timing noise explains (a healthy node timed out)
+	slow   int32 // a node that is not supposed to stall took a large part of the caller's deadline to answer
 }
 
 func (r *vfRun) faultOf(node uint64) string {
@@ -171,6 +171,9 @@ type vfCluster struct {
 	nodes  map[uint64]*vfNode
 	run    atomic.Value // *vfRun
 	active int64        // server-side connections currently open
+	cmu    sync.Mutex
+	conns  map[*vfConn]struct{}
+	leaked int64 // connections the coordinator left open after MetaExecutor.Close (closed by the harness)
 }
 
 func (cl *vfCluster) cur() *vfRun {
@@ -197,7 +200,7 @@ func (s *vfServer) HTTPScheme() string { return "http" }
 func (s *vfServer) TCPAddr() string    { return "127.0.0.1:0" }
 
 func vfNewCluster(n int) (*vfCluster, error) {
-	cl := &vfCluster{nodes: map[uint64]*vfNode{}}
+	cl := &vfCluster{nodes: map[uint64]*vfNode{}, conns: map[*vfConn]struct{}{}}
 	for i := 1; i <= n; i++ {
 		nd := &vfNode{id: uint64(i), cl: cl}
 		ln, err := net.Listen("tcp", "127.0.0.1:0")
@@ -237,9 +240,22 @@ func (cl *vfCluster) close() {
 // quiesce waits until no server-side connection of an earlier run is open (deterministic barrier,
 // watchdog only).
 func (cl *vfCluster) quiesce() error {
-	dl := time.Now().Add(20 * time.Second)
+	t0 := time.Now()
+	forced := false
 	for atomic.LoadInt64(&cl.active) != 0 {
-		if time.Now().After(dl) {
+		if !forced && time.Since(t0) > 250*time.Millisecond {
+			// A connection that the coordinator never closes (MetaExecutor.dial can create two pools for one
+			// node when two requests race; the overwritten pool keeps its initial connection).  Not C05's
+			// subject: close it from the server side and count it.
+			forced = true
+			cl.cmu.Lock()
+			for c := range cl.conns {
+				atomic.AddInt64(&cl.leaked, 1)
+				c.Conn.Close()
+			}
+			cl.cmu.Unlock()
+		}
+		if time.Since(t0) > 30*time.Second {
 			return fmt.Errorf("watchdog: %d server connections still open", atomic.LoadInt64(&cl.active))
 		}
 		time.Sleep(200 * time.Microsecond)
@@ -260,7 +276,11 @@ func (l *vfListener) Accept() (net.Conn, error) {
 		return nil, err
 	}
 	atomic.AddInt64(&l.node.cl.active, 1)
-	return &vfConn{Conn: c, node: l.node, run: l.node.cl.cur()}, nil
+	vc := &vfConn{Conn: c, node: l.node, run: l.node.cl.cur(), cutUnits: -1}
+	l.node.cl.cmu.Lock()
+	l.node.cl.conns[vc] = struct{}{}
+	l.node.cl.cmu.Unlock()
+	return vc, nil
 }
 
 // vfConn parses the request stream (to record which request reached the node) and the reply stream (to cut
@@ -275,6 +295,7 @@ type vfConn struct {
 	in        []byte
 	lastOp    string
 	lastN     int // markers the node will stream for the last request
+	lastReq   int64 // unix nano of the last complete request, 0 once the reply has begun
 
 	wmu      sync.Mutex
 	ophase   int // 0 type, 1 length, 2 body (TLV); 3 length, 4 body (frame)
@@ -290,8 +311,22 @@ type vfConn struct {
 }
 
 func (c *vfConn) Close() error {
-	c.closeOnce.Do(func() { atomic.AddInt64(&c.node.cl.active, -1) })
+	c.closeOnce.Do(func() {
+		c.node.cl.cmu.Lock()
+		delete(c.node.cl.conns, c)
+		c.node.cl.cmu.Unlock()
+		atomic.AddInt64(&c.node.cl.active, -1)
+	})
 	return c.Conn.Close()
+}
+
+// kill closes the connection from the node's side; nothing is written any more.
+func (c *vfConn) kill() {
+	atomic.StoreInt64(&c.lastReq, 0)
+	c.wmu.Lock()
+	c.cutDone = true
+	c.wmu.Unlock()
+	c.Conn.Close()
 }
 
 var vfOpNames = map[byte]string{
@@ -376,16 +411,17 @@ func (c *vfConn) Read(p []byte) (int, error) {
 		}
 		c.lastOp = op
 		c.lastN = len(c.run.owned(c.node.id, shards))
+		atomic.StoreInt64(&c.lastReq, time.Now().UnixNano())
 		c.run.call(c.node.id, op, shards)
 		switch c.run.faultOf(c.node.id) {
 		case "dialFail":
 			// the node dies before it replies
-			c.Conn.Close()
+			c.kill()
 			return 0, io.ErrClosedPipe
 		case "stall":
 			// the node never replies: the caller's deadline decides.  Released when the run ends.
 			<-c.run.release
-			c.Conn.Close()
+			c.kill()
 			return 0, io.ErrClosedPipe
 		}
 	}
@@ -428,6 +464,14 @@ func (c *vfConn) Write(p []byte) (int, error) {
 	defer c.wmu.Unlock()
 	if c.cutDone {
 		return 0, io.ErrClosedPipe
+	}
+	if t := atomic.SwapInt64(&c.lastReq, 0); t != 0 && c.run != nil {
+		if time.Duration(time.Now().UnixNano()-t) > c.run.timeout/2 {
+			atomic.StoreInt32(&c.run.slow, 1) // timing noise: this run cannot be judged
+			if os.Getenv("VERIF_DEBUG") != "" {
+				fmt.Fprintf(os.Stderr, "slow: node %d op %s fault %s took %s\n", c.node.id, c.lastOp, c.run.faultOf(c.node.id), time.Duration(time.Now().UnixNano()-t))
+			}
+		}
 	}
 	written := 0
 	for written < len(p) {
@@ -811,7 +855,7 @@ func vfBuildMeta(cl *vfCluster, run *vfRun, refuse bool) (*vfMeta, error) {
 		id := uint64(i)
 		addr := cl.nodes[id].addr
 		if refuse && run.fault[id] == "dialFail" {
-			addr = fmt.Sprintf("127.0.0.1:%d", 1) // tcpmux port: connection refused
+			addr = fmt.Sprintf("127.0.0.1:%d", i) // privileged port nobody listens on: connection refused
 		}
 		if err := d.CreateDataNode(fmt.Sprintf("127.0.0.1:%d", 18000+i), addr); err != nil {
 			return nil, err
@@ -920,6 +964,7 @@ type vfResult struct {
 	Events  []map[string]interface{}
 	Notes   []string
 	Storm   bool
+	Slow    bool
 }
 
 func vfSortedDirty(g *remoteShardGroup) []string {
@@ -1047,6 +1092,7 @@ func vfExec(cl *vfCluster, sc *vfScen, rid int, timeout time.Duration) (res *vfR
 		res.Events = run.events
 		run.mu.Unlock()
 		res.Storm = atomic.LoadInt32(&run.fuse) != 0
+		res.Slow = atomic.LoadInt32(&run.slow) != 0
 	}()
 
 	ownersEv := make([][]string, len(sc.Owners))
@@ -1147,6 +1193,20 @@ func vfExec(cl *vfCluster, sc *vfScen, rid int, timeout time.Duration) (res *vfR
 				res.Notes = append(res.Notes, "read:out-of-range-shard")
 			}
 			finish("success", reads, nil)
+			return res, nil
+		}
+		if !sc.Trace && (sc.Variant/7)%2 == 1 {
+			// the whole statement through the query engine (compile, map, field mapping, cursor)
+			sg.Close()
+			reads, qerr, e := vfEngineSelect(mapper, tr, n, &res.Notes)
+			if e != nil {
+				return res, e
+			}
+			if qerr != nil {
+				finish("error", nil, qerr)
+			} else {
+				finish("success", reads, nil)
+			}
 			return res, nil
 		}
 		// select = FieldDimensions, MapType, CreateIterator, drain
@@ -1287,7 +1347,8 @@ func vfExec(cl *vfCluster, sc *vfScen, rid int, timeout time.Duration) (res *vfR
 				}
 				mark(keys)
 			default:
-				names, err := cs.MeasurementNames(context.Background(), nil, vfDB, vfRP, nil)
+				// no retention policy filter: the inmem index of the local store does not support one
+				names, err := cs.MeasurementNames(context.Background(), nil, vfDB, "", nil)
 				qerr = err
 				var keys []string
 				for _, nm := range names {
@@ -1309,18 +1370,84 @@ func vfExec(cl *vfCluster, sc *vfScen, rid int, timeout time.Duration) (res *vfR
 	return res, nil
 }
 
+// vfEngineSelect runs "SELECT value FROM db0.rp0.m WHERE <range>" through query.Select with the cluster shard
+// mapper and counts the markers in the rows.
+func vfEngineSelect(mapper *ClusterShardMapper, tr influxql.TimeRange, n int, notes *[]string) (reads []int, qerr error, err error) {
+	q := fmt.Sprintf("SELECT value FROM %s.%s.%s WHERE time >= %d AND time <= %d", vfDB, vfRP, vfMeasurement, tr.Min.UnixNano(), tr.Max.UnixNano())
+	st, err := influxql.ParseStatement(q)
+	if err != nil {
+		return nil, nil, err
+	}
+	cur, qerr := query.Select(context.Background(), st.(*influxql.SelectStatement), mapper, query.SelectOptions{})
+	if qerr != nil {
+		return nil, qerr, nil
+	}
+	if cur == nil {
+		return make([]int, n), nil, nil
+	}
+	defer cur.Close()
+	reads = make([]int, n)
+	var row query.Row
+	for cur.Scan(&row) {
+		id := 0
+		for _, v := range row.Values {
+			if f, ok := v.(float64); ok {
+				id = int(f)
+			}
+		}
+		if id >= 1 && id <= n && row.Time == vfT0.UnixNano()+int64(id) {
+			reads[id-1]++
+		} else {
+			*notes = append(*notes, "read:out-of-range-shard")
+		}
+	}
+	if e := cur.Err(); e != nil {
+		return nil, e, nil
+	}
+	return reads, nil, nil
+}
+
 // ---------------------------------------------------------------------------------------------- oracle
 
-func vfFaultSig(sc *vfScen, shards []int) string {
+// vfFaultSig names the fault classes that explain a wrong read of the given shards: the class of the node
+// that was asked last for the shard by the operation that produces the result (CreateIterator, IteratorCost),
+// for the all-nodes fan-out the classes of the shard's owners; with no shards: all classes of the scenario.
+func vfFaultSig(sc *vfScen, res *vfResult, shards []int) string {
 	set := map[string]bool{}
+	resultOp := map[string]string{"select": "CI", "cost": "IC"}[sc.Kind]
 	for _, s := range shards {
+		asked := ""
+		if res != nil && resultOp != "" {
+			for _, e := range res.Events {
+				if e["e"] != "call" || e["op"] != resultOp {
+					continue
+				}
+				for _, x := range e["shards"].([]int) {
+					if x == s {
+						asked = e["node"].(string)
+					}
+				}
+			}
+		}
+		if asked != "" {
+			f := sc.Fault[asked]
+			if f == "" {
+				f = "up"
+			}
+			set[f] = true
+			continue
+		}
+		if resultOp != "" {
+			set["not-requested"] = true
+			continue
+		}
 		for _, o := range sc.Owners[s-1] {
 			if f := sc.Fault[o]; f != "" && f != "up" {
 				set[f] = true
 			}
 		}
 	}
-	if len(set) == 0 {
+	if len(shards) == 0 {
 		for _, f := range sc.Fault {
 			if f != "up" {
 				set[f] = true
@@ -1366,7 +1493,7 @@ func vfJudge(sc *vfScen, res *vfResult) (sigs []string, detail string) {
 		add(nt + ":" + kind)
 	}
 	if res.Storm {
-		add("retry-storm:" + kind + ":" + vfFaultSig(sc, nil))
+		add("retry-storm:" + kind + ":" + vfFaultSig(sc, res, nil))
 	}
 	live := func(s int) bool {
 		for _, o := range sc.Owners[s-1] {
@@ -1393,13 +1520,13 @@ func vfJudge(sc *vfScen, res *vfResult) (sigs []string, detail string) {
 		}
 		// the property: success means every shard exactly once
 		if len(missing) > 0 {
-			add("partial:" + kind + ":" + vfFaultSig(sc, missing))
+			add("partial:" + kind + ":" + vfFaultSig(sc, res, missing))
 		}
 		if len(twice) > 0 {
-			add("twice:" + kind + ":" + vfFaultSig(sc, twice))
+			add("twice:" + kind + ":" + vfFaultSig(sc, res, twice))
 		}
 		if len(unserv) > 0 && len(missing) == 0 {
-			add("unservable-success:" + kind + ":" + vfFaultSig(sc, unserv))
+			add("unservable-success:" + kind + ":" + vfFaultSig(sc, res, unserv))
 		}
 	}
 	// the model: the observed terminal state must be one the model reaches for this scenario
@@ -1414,7 +1541,7 @@ func vfJudge(sc *vfScen, res *vfResult) (sigs []string, detail string) {
 			}
 		}
 		if !ok && len(sigs) == 0 {
-			add("model:" + kind + ":" + res.Outcome + ":" + vfFaultSig(sc, nil))
+			add("model:" + kind + ":" + res.Outcome + ":" + vfFaultSig(sc, res, nil))
 		}
 	}
 	detail = fmt.Sprintf("scenario %d kind=%s coord=%s owners=%v fault=%v variant=%d: outcome=%s reads=%v err=%q assign=%v notes=%v allowed=%v",
@@ -1475,7 +1602,7 @@ func TestVerifFanout(t *testing.T) {
 		traceF = f
 		defer f.Close()
 	}
-	var ridCtr, runs, reruns, noise, mism, traced int64
+	var ridCtr, runs, reruns, noise, mism, traced, leaked, slow int64
 	var fatalMu sync.Mutex
 	var fatal error
 	kinds := map[string]int{}
@@ -1496,6 +1623,7 @@ func TestVerifFanout(t *testing.T) {
 				return
 			}
 			defer cl.close()
+			defer func() { atomic.AddInt64(&leaked, atomic.LoadInt64(&cl.leaked)) }()
 			for sc := range jobs {
 				fatalMu.Lock()
 				dead := fatal != nil
@@ -1510,6 +1638,14 @@ func TestVerifFanout(t *testing.T) {
 				for rep := 0; rep < reps; rep++ {
 					rid := int(atomic.AddInt64(&ridCtr, 1))
 					res, err := vfExecWatchdog(cl, sc, rid, timeout)
+					for k := 0; err == nil && res.Slow && k < 5; k++ {
+						// a healthy node answered too slowly for the deadline in use: timing noise, run again
+						atomic.AddInt64(&slow, 1)
+						res, err = vfExecWatchdog(cl, sc, int(atomic.AddInt64(&ridCtr, 1)), timeout)
+					}
+					if err == nil && res.Slow {
+						err = fmt.Errorf("machine too slow for the configured deadline (%s)", timeout)
+					}
 					atomic.AddInt64(&runs, 1)
 					if err != nil {
 						fatalMu.Lock()
@@ -1522,12 +1658,15 @@ func TestVerifFanout(t *testing.T) {
 						// confirm: the same class must show again (timing noise does not repeat; the code's random
 						// owner choice may need a few attempts)
 						again := false
-						for k := 0; k < 6 && !again; k++ {
+						for k := 0; k < 12 && !again; k++ {
 							rid2 := int(atomic.AddInt64(&ridCtr, 1))
 							res2, err2 := vfExecWatchdog(cl, sc, rid2, timeout)
 							atomic.AddInt64(&reruns, 1)
 							if err2 != nil {
 								break
+							}
+							if res2.Slow {
+								continue
 							}
 							sigs2, _ := vfJudge(sc, res2)
 							for _, a := range sigs {
@@ -1583,5 +1722,86 @@ func TestVerifFanout(t *testing.T) {
 		t.Fatalf("harness failure: %v", fatal)
 	}
 	vtrace.Done("TestVerifFanout", map[string]interface{}{"scenarios": len(in.Scenarios), "runs": runs, "reruns": reruns, "noise": noise,
-		"mismatching_scenarios": mism, "traced_runs": traced, "kinds": kinds})
+		"mismatching_scenarios": mism, "traced_runs": traced, "kinds": kinds, "leaked_conns": leaked, "slow_reruns": slow})
+}
+
+// TestVerifFanoutRPC: every remote procedure of the fan-out against a node whose store reports an error.
+// The reply carries Err; MetaExecutor must hand it to its caller (C05_ErrorReplySurfaces at the level of one
+// call).  MapType is absent: processMapTypeRequest has no error path once the request is decoded.
+func TestVerifFanoutRPC(t *testing.T) {
+	cl, err := vfNewCluster(2)
+	if err != nil {
+		t.Fatal(err)
+	}
+	defer cl.close()
+	m := &influxql.Measurement{Database: vfDB, RetentionPolicy: vfRP, Name: vfMeasurement}
+	opt := query.IteratorOptions{Expr: &influxql.VarRef{Val: "value", Type: influxql.Float}, StartTime: influxql.MinTime, EndTime: influxql.MaxTime, Ascending: true}
+	ids := []uint64{1}
+	type rpc struct {
+		name string
+		call func(me *MetaExecutor) error
+	}
+	rpcs := []rpc{
+		{"CreateIterator", func(me *MetaExecutor) error {
+			itr, err := me.CreateIterator(2, ids, context.Background(), m, opt)
+			if itr != nil {
+				itr.Close()
+			}
+			return err
+		}},
+		{"FieldDimensions", func(me *MetaExecutor) error { _, _, err := me.FieldDimensions(2, ids, m); return err }},
+		{"IteratorCost", func(me *MetaExecutor) error { _, err := me.IteratorCost(2, ids, m, opt); return err }},
+		{"TagKeys", func(me *MetaExecutor) error { _, err := me.TagKeys(2, ids, nil); return err }},
+		{"TagValues", func(me *MetaExecutor) error { _, err := me.TagValues(2, ids, nil); return err }},
+		{"MeasurementNames", func(me *MetaExecutor) error { _, err := me.MeasurementNames(2, vfDB, "", nil); return err }},
+		{"SeriesSketches", func(me *MetaExecutor) error { _, _, err := me.SeriesSketches(2, vfDB); return err }},
+		{"MeasurementsSketches", func(me *MetaExecutor) error { _, _, err := me.MeasurementsSketches(2, vfDB); return err }},
+		{"ReadFilter", func(me *MetaExecutor) error {
+			rs, err := me.ReadFilter(2, ids, context.Background(), &datatypes.ReadFilterRequest{})
+			if rs != nil {
+				rs.Close()
+			}
+			return err
+		}},
+		{"ReadGroup", func(me *MetaExecutor) error {
+			rs, err := me.ReadGroup(2, ids, context.Background(), &datatypes.ReadGroupRequest{})
+			if rs != nil {
+				rs.Close()
+			}
+			return err
+		}},
+	}
+	checked := 0
+	for _, fault := range []string{"up", "errReply"} {
+		for _, r := range rpcs {
+			sc := &vfScen{ID: 1, Nodes: []string{"n1", "n2"}, Owners: [][]string{{"n2"}}, Coord: "n1", Fault: map[string]string{"n1": "up", "n2": fault}, Kind: "rpc"}
+			if err := cl.quiesce(); err != nil {
+				t.Fatal(err)
+			}
+			run := &vfRun{sc: sc, fault: map[uint64]string{1: "up", 2: fault}, owners: map[uint64]map[uint64]bool{1: {2: true}, vfDecoyShard: {}}, nshards: 1,
+				timeout: 5 * time.Second, release: make(chan struct{})}
+			cl.run.Store(run)
+			mc, err := vfBuildMeta(cl, run, false)
+			if err != nil {
+				t.Fatal(err)
+			}
+			me := NewMetaExecutor(5*time.Second, 2*time.Second, time.Minute, 8)
+			me.MetaClient = mc
+			cerr := r.call(me)
+			close(run.release)
+			me.Close()
+			checked++
+			if fault == "up" && cerr != nil {
+				t.Fatalf("%s on a healthy node: %v", r.name, cerr)
+			}
+			if fault == "errReply" && cerr == nil {
+				vtrace.Mismatch("errswallowed:"+r.name, fmt.Sprintf("MetaExecutor.%s returned a nil error although node 2 replied with Err=%q", r.name, errVfStore),
+					map[string]interface{}{"rpc": r.name})
+			}
+		}
+	}
+	if err := cl.quiesce(); err != nil {
+		t.Fatal(err)
+	}
+	vtrace.Done("TestVerifFanoutRPC", map[string]interface{}{"calls": checked})
 }
